@@ -252,6 +252,16 @@ fn game_server(name: &str, shape: &str) -> Value {
                 "status": {"address": "10.0.0.1", "ports": [{"name": "default", "port": 7001}], "state": "Ready", "counters": {"players": {"count": 5, "capacity": 10}}},
             });
         }
+        // marked for deletion (deletionTimestamp set, kept alive by its finalizer) but still Allocated at another
+        // port: its most recently observed state is what counts
+        "allocated-terminating" => {
+            let mut v = game_server(name, "allocated");
+            v["metadata"]["deletionTimestamp"] = json!("2026-01-01T00:00:00Z");
+            v["metadata"]["deletionGracePeriodSeconds"] = json!(0);
+            v["metadata"]["finalizers"] = json!(["agones.dev/controller"]);
+            v["status"]["ports"] = json!([{"name": "default", "port": 7300}]);
+            return v;
+        }
         other => common::machinery(&format!("shape {other}")),
     };
     json!({
@@ -540,6 +550,7 @@ fn alphabet() -> Vec<Ev> {
         v.push(Ev::Delete { name: name.into() });
     }
     v.push(Ev::Apply { name: "a".into(), shape: "ready-lean".into() });
+    v.push(Ev::Apply { name: "b".into(), shape: "allocated-terminating".into() });
     v.push(Ev::Bookmark);
     v.push(Ev::CloseWatch);
     v.push(Ev::Gone);
@@ -653,6 +664,8 @@ pub fn run(cli: Cli) -> ! {
             vec![a("allocated"), a("shutdown"), a("ready-moved")],
             vec![b("ready"), Ev::Bookmark, Ev::CloseWatch],
             vec![a("ready"), a("ready-lean"), a("allocated")],
+            vec![a("ready"), a("allocated-terminating"), del("a")],
+            vec![b("allocated-terminating"), Ev::Gone, a("allocated-terminating")],
             vec![a("ready"), Ev::GoneAndApply { name: "a".into(), shape: "ready-lean".into() }, a("ready")],
             vec![a("ready-moved"), Ev::CloseWatch, a("ready-lean")],
         ] {
